@@ -108,6 +108,9 @@ static RunOut run_schedule(const Scenario& sc, const std::vector<Seg>& plan) {
   int n = (int)sc.th.size();
   S.nthreads = n; S.plan = plan; S.pos = 0; S.used = 0; S.total_points = 0; S.state_changed = false; S.preemptions = 0;
   for (int i = 0; i < 8; ++i) { S.finished[i] = false; S.steps[i] = 0; }
+  // a container that no clipper has used yet for every schedule in which it is shared (its heap blocks are re-logged)
+  bool uses_shared = false; for (auto& t : sc.th) if (t.first <= 1) uses_shared = true;
+  if (uses_shared) { g_nblk = 0; bodies_setup_shared(); }
   S.baseline = hash_state();
   RunOut out; out.res.resize(n);
   for (auto& r : out.res) r.reserve(1 << 14);
@@ -162,6 +165,7 @@ int main(int argc, char** argv) {
     std::vector<std::string> ref(s.th.size());
     for (size_t t = 0; t < s.th.size(); ++t) bodies_run(s.th[t].first, s.th[t].second, ref[t]);
     for (int r = 0; r < REPS; ++r) {
+      bodies_setup_shared();   // a fresh, never used container for every repetition
       std::atomic<int> ready{0}; std::vector<std::string> res(s.th.size()); std::vector<std::thread> ts;
       for (size_t t = 0; t < s.th.size(); ++t) ts.emplace_back([&, t]() { ready++; while (ready.load() < (int)s.th.size()) {} bodies_run(s.th[t].first, s.th[t].second, res[t]); });
       for (auto& t : ts) t.join();
